@@ -7,6 +7,7 @@ Nodes
     ["call", ref]
     ["if", [[ref, body], ...], else_body-or-None]
     ["unless", ref, body]
+    ["elseblk", ref, body]        deprecated stand-alone <dtml-else name> block
     ["in", ref, body, else_body-or-None, opts]
     ["with", ref, body, flags]    flags: subset of ["mapping", "only"]
     ["let", [[name, ref], ...], body]
@@ -186,6 +187,11 @@ class Printer:
                 self.tag('else', self.endargs(first), 'cont')
                 self.body(els)
             self.tag('if', self.endargs(first), 'close')
+        elif k == 'elseblk':
+            # deprecated stand-alone "else NAME" block (behaves like unless)
+            self.tag('else', [_ref(n[1], st)], 'open')
+            self.body(n[2])
+            self.tag('else', self.endargs(n[1]), 'close')
         elif k == 'unless':
             self.tag('unless', [_ref(n[1], st)], 'open')
             self.body(n[2])
@@ -280,7 +286,7 @@ def count_tags(nodes):
                 n += count_tags(b)
             if x[2] is not None:
                 n += count_tags(x[2])
-        elif k in ('unless', 'with', 'raise', 'tree'):
+        elif k in ('unless', 'with', 'raise', 'tree', 'elseblk'):
             n += count_tags(x[2])
         elif k == 'in':
             n += count_tags(x[2])
